@@ -5,9 +5,12 @@
 //   once a launch was accepted after the last push join() returns with everything consumed.
 #include <babylon/concurrent/execution_queue.h>
 
+#include <stdarg.h>
 #include <stdio.h>
 #include <string.h>
 
+#include <memory>
+#include <string>
 #include <thread>
 #include <vector>
 
@@ -18,7 +21,18 @@ using vf::Chooser;
 
 namespace {
 
+// KNOWN FINDING (clean tree, see the report / known_findings): join() only watches the event counter, and the
+// consumer's "empty" poll stops at the first unpublished ticket of the FIFO. An item whose execute() has already
+// returned 0 can therefore sit behind another producer's still unfinished push with the counter at 0 and no
+// consumer running; a join() called in that window returns although that item was not consumed yet (it is
+// consumed as soon as the slower producer finishes its own execute()). While this flag is true the strict
+// "consumed when a concurrent join() returns" check skips exactly the items whose execute() overlapped another
+// thread's execute(); set it to false to reproduce the finding.
+constexpr bool known_join_misses_item_behind_inflight_push = true;
+
 struct PerThread {
+  bool pushing = false;     // inside execute() (a push may be in flight)
+  bool overlapped = false;  // ... and another thread's execute() overlapped it
   int attempts_in_call = 0;   // invoke() attempts made by this thread inside its current execute()/signal call
   bool last_refused = false;  // outcome of the latest of them
   int sleeps_in_call = 0;     // usleep(1000) polls inside the current execute()/join() call
@@ -28,6 +42,7 @@ struct PerThread {
 struct Done {
   uint64_t id;
   dsched::Stamp stamp;
+  bool overlapped;  // another thread's execute() was in flight at some point during this one
 };
 
 struct World {
@@ -48,8 +63,19 @@ struct World {
   bool overlap = false;
   bool handoff = false;
   size_t total = 0;
+  std::string trace;  // compact event log for failure messages
 };
 World* W;
+
+void tr(const char* fmt, ...) __attribute__((format(printf, 1, 2)));
+void tr(const char* fmt, ...) {
+  char buf[96];
+  va_list ap;
+  va_start(ap, fmt);
+  vsnprintf(buf, sizeof buf, fmt, ap);
+  va_end(ap);
+  if (W->trace.size() < 1500) W->trace += buf;
+}
 
 // The queue's join() and the bounded queue's full-queue wait poll with S::usleep(1000). Virtual time only
 // advances 100 ns per step of a running thread, so dozens of polls inside one call mean every other thread
@@ -97,6 +123,7 @@ struct FlakyExecutor : public babylon::Executor {
   int invoke(babylon::MoveOnlyFunction<void(void)>&& function) noexcept override {
     int attempt = W->attempts++;
     int me = dsched::tid();
+    tr("T%d:launch#%d%s ", me, attempt, (attempt < 32 && ((W->refuse_mask >> attempt) & 1u)) ? "=refused" : "");
     PerThread& t = W->thr[me];
     t.attempts_in_call++;
     dsched::point();
@@ -158,7 +185,14 @@ void run_producer(Queue& q, const Plan& plan, bool hooked) {
     t.sleeps_in_call = 0;
     t.in_call = op.kind == O_SIGNAL ? "signal_push_event()" : "execute()";
     if (W->in_consume > 0 || W->launch_active > 0) W->overlap = true;
+    if (op.kind != O_SIGNAL) {
+      t.pushing = true;
+      t.overlapped = false;
+      for (int u = 0; u < dsched::MAXT; u++)
+        if (u != me && W->thr[u].pushing) W->thr[u].overlapped = t.overlapped = true;
+    }
     W->in_execute++;
+    tr("T%d:%s(%lx)> ", me, op.kind == O_SIGNAL ? "signal" : "execute", (unsigned long)op.id);
     int ret;
     if (op.kind == O_MOVE) {
       Elem e(op.id);
@@ -171,9 +205,11 @@ void run_producer(Queue& q, const Plan& plan, bool hooked) {
     }
     W->in_execute--;
     t.in_call = nullptr;
+    t.pushing = false;
+    tr("T%d:<%d ", me, ret);
     check_ret(op.kind == O_SIGNAL ? "signal_push_event()" : "execute()", ret, hooked, t);
     if (ret == 0 && t.attempts_in_call == 0 && op.kind != O_SIGNAL) W->handoff = true;
-    if (op.kind != O_SIGNAL) W->completed.push_back(Done{op.id, dsched::stamp()});
+    if (op.kind != O_SIGNAL) W->completed.push_back(Done{op.id, dsched::stamp(), t.overlapped});
     if (ret != 0) {
       if (plan.defer) {
         W->need_signal = true;
@@ -193,24 +229,30 @@ void run_producer(Queue& q, const Plan& plan, bool hooked) {
   }
 }
 
-void checked_join(Queue& q, bool faultless, const char* who) {
+void checked_join(Queue& q, bool faultless, bool final_join) {
+  const char* who = final_join ? "final" : "concurrent";
   int me = dsched::tid();
   PerThread& t = W->thr[me];
   // everything whose execute() returned before this join() started (happens-before in weak mode)
   std::vector<uint64_t> before;
-  for (const Done& d : W->completed)
-    if (dsched::ordered_after(d.stamp)) before.push_back(d.id);
+  for (const Done& d : W->completed) {
+    if (!dsched::ordered_after(d.stamp)) continue;
+    if (known_join_misses_item_behind_inflight_push && d.overlapped && !final_join) continue;
+    before.push_back(d.id);
+  }
   t.sleeps_in_call = 0;
   t.in_call = "join()";
+  tr("T%d:join> ", me);
   q.join();
+  tr("T%d:<join ", me);
   t.in_call = nullptr;
   if (!faultless) return;
   for (uint64_t id : before) {
     bool found = false;
     for (uint64_t c : W->consumed) found = found || c == id;
     if (!found)
-      dsched::fail("join", "%s join() returned but id %lx, whose execute() had returned before the join started, was not consumed", who,
-                   (unsigned long)id);
+      dsched::fail("join", "%s join() returned but id %lx, whose execute() had returned before the join started, was not consumed; trace: %s",
+                   who, (unsigned long)id, W->trace.c_str());
   }
 }
 
@@ -263,17 +305,18 @@ void run_case(Chooser& c) {
   if (joiner) dsched::describe(" joiner=%dx+%d", joiner, joiner_delay);
 
   {
-    babylon::ThreadPoolExecutor pool;
+    std::unique_ptr<babylon::ThreadPoolExecutor> pool_holder;
+    if (pooled) pool_holder.reset(new babylon::ThreadPoolExecutor);
     FlakyExecutor flaky;
     babylon::Executor* ex = &babylon::InplaceExecutor::instance();
     if (pooled) {
-      pool.set_worker_number((size_t)workers);
-      pool.set_global_capacity(8);
-      if (pool.start() != 0) dsched::fail("harness", "thread pool did not start");
-      ex = &pool;
+      pool_holder->set_worker_number((size_t)workers);
+      pool_holder->set_global_capacity(8);
+      if (pool_holder->start() != 0) dsched::fail("harness", "thread pool did not start");
+      ex = pool_holder.get();
     }
     if (hooked) {
-      flaky.inner = pooled ? &pool : nullptr;
+      flaky.inner = pooled ? pool_holder.get() : nullptr;
       ex = &flaky;
     }
     Queue q;
@@ -289,11 +332,12 @@ void run_case(Chooser& c) {
         if (chk != ~id) dsched::fail("payload", "id %lx consumed with torn payload %lx", (unsigned long)id, (unsigned long)chk);
         world.consumed.push_back(id);
         world.consumed_by.push_back(dsched::tid());
+        tr("T%d:consume(%lx) ", dsched::tid(), (unsigned long)id);
       }
       dsched::point();
       world.in_consume--;
     };
-    if (q.initialize((size_t)cap_hint, *ex, consume) != 0) dsched::fail("harness", "initialize failed");
+    if (q.initialize((size_t)cap_hint, *ex, std::move(consume)) != 0) dsched::fail("harness", "initialize failed");
     if (q.capacity() != cap_real) dsched::fail("harness", "capacity %zu, expected %zu", q.capacity(), cap_real);
 
     std::vector<std::thread> threads;
@@ -302,7 +346,7 @@ void run_case(Chooser& c) {
       threads.emplace_back([&] {
         for (int i = 0; i < joiner_delay; i++) dsched::yield_point();
         for (int i = 0; i < joiner; i++) {
-          checked_join(q, faultless, "concurrent");
+          checked_join(q, faultless, false);
           dsched::yield_point();
         }
       });
@@ -322,13 +366,13 @@ void run_case(Chooser& c) {
       }
     }
     // every launch needed after the last push has been accepted by now
-    checked_join(q, true, "final");
+    checked_join(q, true, true);
     if (world.in_consume != 0) dsched::fail("join", "join() returned while the consume function is still running");
     if (world.consumed.size() < world.total)
       dsched::fail("join", "join() returned with %zu of %zu items consumed (accepted launches %d, refused %d)", world.consumed.size(),
                    world.total, world.accepted, world.refusals);
     if (q.size() != 0) dsched::fail("join", "size() == %zu after the final join()", q.size());
-    if (pooled) pool.stop();
+    if (pooled) pool_holder->stop();
   }
 
   // exactly once + per-producer order
